@@ -43,6 +43,7 @@ def stepCoins : List String → String
   | ["coins.anygte", a, b] => cbin (fun x y => showOptBool (isAnyGTE x y)) a b
   | ["coins.subset", a, b] => cbin (fun x y => showOptBool (denomsSubsetOf x y)) a b
   | ["coins.isequal", a, b] => cbin (fun x y => showOptBool (isEqual x y)) a b
+  | t :: _ => if t.startsWith "mon." then "done" else "bad-op"   -- monitor-only operations (DecCoins): checked on the Go side
   | _ => "bad-op"
 
 end Posmint.Driver
